@@ -128,7 +128,7 @@ inductive Discard where
 def discard (r : R) (n : Nat) : Discard :=
   if h : r.pos > r.dlo then
     let want := min n (r.pos - r.dlo)
-    let got := min want r.dec.length
+    let got := (r.dec.take want).length     -- = min want r.dec.length, without walking the whole list
     let r1 : R := { r with dec := r.dec.drop got, dlo := r.dlo + got }
     if r1.dec.isEmpty then
       -- this read reported io.EOF / io.ErrUnexpectedEOF
@@ -139,8 +139,9 @@ def discard (r : R) (n : Nat) : Discard :=
   else .goOn r
 termination_by r.pos - r.dlo
 decreasing_by
-  show r.pos - (r.dlo + min (min n (r.pos - r.dlo)) r.dec.length) < r.pos - r.dlo
-  have : min (min n (r.pos - r.dlo)) r.dec.length ≠ 0 := hg
+  show r.pos - (r.dlo + (r.dec.take (min n (r.pos - r.dlo))).length) < r.pos - r.dlo
+  have : (r.dec.take (min n (r.pos - r.dlo))).length ≠ 0 := hg
+  have := List.length_take (i := min n (r.pos - r.dlo)) (l := r.dec)
   omega
 
 /-- `readExplicitData` with `len(p) = n > 0`: bytes handed out, returned error. -/
@@ -148,7 +149,7 @@ def readExplicit (r : R) (n : Nat) : R × List UInt8 × Option Err :=
   match discard r n with
   | .ret r' e => (r', [], e)
   | .goOn r =>
-    let got := min n r.dec.length
+    let got := (r.dec.take n).length        -- = min n r.dec.length
     let dec' := r.dec.drop got
     let size := r.dhi - r.dlo
     if got > size then
@@ -300,14 +301,17 @@ def R.read (F : File) (r : R) (n : Nat) : R × List UInt8 × Option Err :=
     if r.pos ≥ r.posLimit then (r, [], some .eof)
     else readLoop F r (min n (r.posLimit - r.pos))
 
+/-- the `switch whence` of `seek`: the requested absolute position (`none`: invalid whence).
+    `pos += offset` and `decompressedSize + offset` are int64 additions. -/
+def seekTarget (pos size : Nat) (off whence : Int) : Option Int :=
+  if whence = 0 then some off
+  else if whence = 1 then some (wrap64 (pos + off))
+  else if whence = 2 then some (wrap64 (size + off))
+  else none
+
 /-- `Reader.seek(offset, whence, limit)` (after `initialize`). -/
 def R.seek (F : File) (r : R) (off whence limit : Int) : R × Int × Option Err :=
-  let target : Option Int :=
-    if whence = 0 then some off
-    else if whence = 1 then some (wrap64 (r.pos + off))
-    else if whence = 2 then some (wrap64 (F.size + off))
-    else none
-  match target with
+  match seekTarget r.pos F.size off whence with
   | none => ((if r.conc then { r with err := some .whence } else r), 0, some .whence)
   | some pos =>
     if pos ≠ (r.pos : Int) ∧ pos < 0 then ({ r with err := some .negPos }, 0, some .negPos)
@@ -392,12 +396,6 @@ structure Spec where
 def Spec.init (data : List UInt8) (stickyWhence : Bool := false) : Spec :=
   { data := data, lim := data.length, stickyWhence := stickyWhence }
 
-def Spec.absPos (s : Spec) (off whence : Int) : Option Int :=
-  if whence = 0 then some off
-  else if whence = 1 then some (wrap64 (s.pos + off))
-  else if whence = 2 then some (wrap64 (s.data.length + off))
-  else none
-
 def Spec.step (s : Spec) : Op → Spec × Res
   | .read n =>
     match s.err with
@@ -406,12 +404,12 @@ def Spec.step (s : Spec) : Op → Spec × Res
       if s.pos ≥ s.lim then (s, .read [] (some .eof))
       else
         let k := min n (s.lim - s.pos)
-        ({ s with pos := s.pos + k }, .read ((s.data.drop s.pos).take k) (if s.pos + k ≥ s.lim then some .eof else none))
+        ({ s with pos := s.pos + k }, .read ((s.data.drop s.pos).take k) none)   -- bytes.Reader: EOF only with 0 bytes
   | .seek off wh =>
     match s.err with
     | some e => (s, .seek 0 (some e))
     | none =>
-      match s.absPos off wh with
+      match seekTarget s.pos s.data.length off wh with
       | none => ((if s.stickyWhence then { s with err := some .whence } else s), .seek 0 (some .whence))
       | some p =>
         if p < 0 then ({ s with err := some .negPos }, .seek 0 (some .negPos))
@@ -431,6 +429,6 @@ def Spec.step (s : Spec) : Op → Spec × Res
 
 def Spec.run : Spec → List Op → List Res
   | _, [] => []
-  | s, op :: ops => let (s', res) := s.step op; res.canon :: Spec.run s' ops
+  | s, op :: ops => let (s', res) := s.step op; res :: Spec.run s' ops
 
 end WuffsVerif.Rac
